@@ -52,6 +52,10 @@ theorem step1_handled (retry : Cl → Option (Cl × Res)) (nx : Nat) (c : Cl) (e
   unfold step1
   simp only [hg, Bool.not_true, Bool.false_eq_true, if_false]
   unfold handledInner at hh
+  by_cases hact : c.g.active = false
+  · simp [hact]
+  have hact' : c.g.active = true := by simpa using hact
+  simp only [hact', Bool.not_true, Bool.false_eq_true, if_false]
   split
   · simp
   · cases hk : e.kind with
